@@ -524,3 +524,25 @@ pub proof fn lemma_pow_w_mono(a: nat, b: nat)
 }
 
 } // verus!
+verus! {
+/// one word of the simultaneous add / subtract of `butterfly`: sum word with carry, difference word through the complement
+pub proof fn lemma_bfly_step(pi: int, lx: int, ly: int, la: int, ls: int, ca: int, cs: int, xw: int, yw: int, aw: int, sw: int, ca2: int, cs2: int)
+    requires
+        la + pi * ca == lx + ly,
+        ls + pi * cs == lx - ly + pi,
+        aw + 0x1_0000_0000_0000_0000 * ca2 == xw + yw + ca,
+        sw + 0x1_0000_0000_0000_0000 * cs2 == xw + (0xffff_ffff_ffff_ffff - yw) + cs,
+    ensures
+        (la + pi * aw) + (0x1_0000_0000_0000_0000 * pi) * ca2 == (lx + pi * xw) + (ly + pi * yw),
+        (ls + pi * sw) + (0x1_0000_0000_0000_0000 * pi) * cs2 == (lx + pi * xw) - (ly + pi * yw) + 0x1_0000_0000_0000_0000 * pi,
+{
+    let w = 0x1_0000_0000_0000_0000int;
+    lemma_distrib_l(pi, aw, w * ca2); lemma_mul_assoc(pi, w, ca2); lemma_mul_comm(pi, w);
+    lemma_distrib_l(pi, xw, yw + ca); lemma_distrib_l(pi, yw, ca);
+    lemma_distrib_l(pi, sw, w * cs2); lemma_mul_assoc(pi, w, cs2);
+    lemma_distrib_l(pi, xw, (0xffff_ffff_ffff_ffff - yw) + cs);
+    lemma_distrib_l(pi, 0xffff_ffff_ffff_ffff - yw, cs);
+    lemma_distrib_l_sub(pi, 0xffff_ffff_ffff_ffff, yw);
+    lemma_distrib_l(pi, 0xffff_ffff_ffff_ffff, 1); lemma_mul_one(pi);
+}
+} // verus!
